@@ -53,7 +53,8 @@ def handle(req):
     if strategy == "client":
         section.setdefault("target_package_name", "gen_client")
         section.setdefault("include_comments", "none")
-    cfg = {"tool": {"ariadne-codegen": section}}
+    # "legacy_section": the deprecated top-level [ariadne-codegen] table instead of [tool.ariadne-codegen] (C15/C17)
+    cfg = {"ariadne-codegen": section} if req.get("legacy_section") else {"tool": {"ariadne-codegen": section}}
     out = io.StringIO()
     res = {"ok": False, "exc": None, "files": None, "stdout": "", "target": None, "config": section}
     try:
